@@ -67,6 +67,14 @@ func (StdEng) denseRepeat(t, reuse DenseTensor, newShape Shape, axis, size int, 
 	if err != nil {
 		return nil, errors.Wrapf(err, "Repeat reuse is not a *Dense")
 	}
+	if t.RequiresIterator() {
+		// the block copies below walk t's storage as a compact array: lay a view or a lazily transposed tensor out first
+		if v, ok := t.(View); ok {
+			if m, ok := v.Materialize().(DenseTensor); ok {
+				t = m
+			}
+		}
+	}
 	var outers int
 	if t.IsScalar() {
 		outers = 1
